@@ -1,3 +1,154 @@
-//! C20 (stub: no cases yet)
+//! C20, run-time half: konst::ffi::cstr constructors and conversions against
+//! core::ffi::CStr, on EVERY byte string over small alphabets that contain the nul
+//! byte, an ASCII byte, an invalid byte and a valid two-byte sequence.
+//! (The concat/join macros take constants; they are covered by the generated program
+//! of lib/gen/c20.py.)
+//!
+//! c20.cstr      bytes   until=S(view)|N ; with=S(view)|N ; conv=S(tbwn,tb,to_str)|N
+//!               a CStr / a conversion result is rendered as the place (offset:len) it
+//!               occupies inside the argument, so pointer identity is part of the comparison
+//! c20.cstr_err  bytes   ok | notterm | interior(pos)   (konst's own error kind; std's
+//!               differs on b"a\0b" and the property only fixes success/failure: std = "-")
 use crate::common::*;
-pub fn run(_cfg: &Cfg, _out: &mut Out) {}
+use konst::ffi::cstr;
+use std::ffi::CStr;
+
+fn show_cstr(whole: &[u8], c: &CStr) -> String {
+    // CStr::to_bytes_with_nul is std's accessor of the fat reference
+    view_of(whole, c.to_bytes_with_nul())
+}
+
+fn impl_line(b: &[u8]) -> String {
+    let until = cstr::from_bytes_until_nul(b);
+    let with = cstr::from_bytes_with_nul(b);
+    let conv = match &until {
+        Ok(c) => {
+            let c: &CStr = c;
+            format!(
+                "S({},{},{})",
+                view_of(b, cstr::to_bytes_with_nul(c)),
+                view_of(b, cstr::to_bytes(c)),
+                show_opt(cstr::to_str(c).ok(), |s| view_of(b, s.as_bytes()))
+            )
+        }
+        Err(_) => "N".to_string(),
+    };
+    fields(&[
+        ("until", show_opt(until.ok(), |c| show_cstr(b, c))),
+        ("with", show_opt(with.ok(), |c| show_cstr(b, c))),
+        ("conv", conv),
+    ])
+}
+
+fn std_line(b: &[u8]) -> String {
+    let until = CStr::from_bytes_until_nul(b);
+    let with = CStr::from_bytes_with_nul(b);
+    let conv = match &until {
+        Ok(c) => format!(
+            "S({},{},{})",
+            view_of(b, c.to_bytes_with_nul()),
+            view_of(b, c.to_bytes()),
+            show_opt(c.to_str().ok(), |s| view_of(b, s.as_bytes()))
+        ),
+        Err(_) => "N".to_string(),
+    };
+    fields(&[
+        ("until", show_opt(until.ok(), |c| show_cstr(b, c))),
+        ("with", show_opt(with.ok(), |c| show_cstr(b, c))),
+        ("conv", conv),
+    ])
+}
+
+fn err_kind(b: &[u8]) -> String {
+    match cstr::from_bytes_with_nul(b) {
+        Ok(_) => "ok".to_string(),
+        Err(e) => {
+            let s = e.to_string();
+            const P: &str = "input bytes contain an internal nul byte at: ";
+            if let Some(n) = s.strip_prefix(P) {
+                format!("interior({})", n)
+            } else if s == "input bytes don't terminate with nul" {
+                "notterm".to_string()
+            } else {
+                format!("other({})", s.replace(|c: char| c.is_whitespace(), "_"))
+            }
+        }
+    }
+}
+
+/// non-triviality class: where the first nul sits and what follows it
+fn tag(b: &[u8]) -> String {
+    let valid = |s: &[u8]| if std::str::from_utf8(s).is_ok() { "u" } else { "x" };
+    match b.iter().position(|&x| x == 0) {
+        None => "-".to_string(),
+        Some(p) if p + 1 == b.len() => format!("last.{}{}", if p == 0 { "empty." } else { "" }, valid(&b[..p])),
+        Some(p) => format!(
+            "inner.{}{}.{}",
+            if p == 0 { "empty." } else { "" },
+            valid(&b[..p]),
+            if *b.last().unwrap() == 0 { "nulend" } else { "open" }
+        ),
+    }
+}
+
+fn case(out: &mut Out, b: &[u8]) {
+    // own allocation of exactly this length for every case
+    let v: Vec<u8> = b.to_vec();
+    let b: &[u8] = &v;
+    let a = hex(b);
+    let t = tag(b);
+    let i = catch(|| impl_line(b));
+    let s = catch(|| std_line(b));
+    out.line("c20.cstr", &a, &i, &s, &t);
+    let e = catch(|| err_kind(b));
+    out.line("c20.cstr_err", &a, &e, "-", &t);
+}
+
+pub fn run(cfg: &Cfg, out: &mut Out) {
+    // witnesses first: the suite's inputs and the design-time observations
+    for w in [
+        &b"foo\0"[..], b"bar\0qux\0", b"foo\xFF\xFF\0", b"a\0b", b"a\0b\0", b"", b"\0", b"\0\0", b"a",
+        b"\xC3\xA9\0", b"\xC3\0\xA9\0", b"\xC3\xA9",
+    ] {
+        case(out, w);
+    }
+    // ALL byte strings over {0, 'a', 0xFF}
+    let n1 = if cfg.thorough { 8 } else { 6 };
+    for s in all_seqs(&[0u8, b'a', 0xFF], n1) {
+        case(out, &s);
+    }
+    // ALL byte strings over {0, 'a', 0xC3, 0xA9, 0xFF}: valid and broken two-byte sequences
+    let n2 = if cfg.thorough { 7 } else { 5 };
+    for s in all_seqs(&[0u8, b'a', 0xC3, 0xA9, 0xFF], n2) {
+        case(out, &s);
+    }
+    // every byte value before / after / as the terminator
+    for x in 0..=255u8 {
+        case(out, &[x]);
+        case(out, &[x, 0]);
+        case(out, &[0, x]);
+        case(out, &[b'a', x, 0]);
+        case(out, &[x, 0, x]);
+    }
+    // seeded random: longer strings, nul-poor so that late terminators occur, with
+    // pieces of multi-byte text
+    let mut rng = Rng::new(cfg.seed ^ 0xC20);
+    let pieces: [&[u8]; 9] = [b"a", b"z", "é".as_bytes(), "个".as_bytes(), "🧠".as_bytes(), b"\xFF", b"\x80", b"\xE4\xB8", b"\0"];
+    let n = if cfg.thorough { 60_000 } else { 6_000 };
+    for _ in 0..n {
+        let len = 1 + rng.below(24) as usize;
+        let nul_weight = 1 + rng.below(4);
+        let mut v = Vec::new();
+        for _ in 0..len {
+            if rng.below(12) < nul_weight {
+                v.push(0);
+            } else {
+                v.extend_from_slice(pieces[rng.below(8) as usize]);
+            }
+        }
+        if rng.below(2) == 0 {
+            v.push(0);
+        }
+        case(out, &v);
+    }
+}
